@@ -28,8 +28,8 @@ RULE = (
     "probe event for L>M, every external event processed; distinct_nontrivial = distinct cases"
 )
 BOUNDS = {
-    "quick": "M in {3,5}; all kinds, lengths, triggers, engines; repeated chains via 5 delivery paths; bursts",
-    "thorough": "M in {3,5,8}; plus deep-expansion case M=60, L=55; bursts up to 3M",
+    "quick": "M in {3,5,8}; all kinds, lengths, triggers, engines; repeated chains via 5 delivery paths; deep-expansion case M=60, L=55; bursts up to 3M",
+    "thorough": "M in {3,5,8,13}; deep-expansion case M=60, L=55; bursts up to 3M",
 }
 ASSUMPTIONS = [
     "L == M is accepted either way (the statement does not say whether a chain of exactly the bound is cut)",
@@ -191,7 +191,7 @@ def repeat_cfg(M: int, L: int) -> Dict[str, Any]:
 
 
 def units(tier: str) -> List[Any]:
-    Ms = (3, 5) if tier == "quick" else (3, 5, 8)
+    Ms = (3, 5, 8) if tier == "quick" else (3, 5, 8, 13)
     us: List[Any] = []
     for M in Ms:
         for how in ("send", "send_events_single", "send_events_batch", "mixed", "timer"):
@@ -201,9 +201,8 @@ def units(tier: str) -> List[Any]:
             for L in (M - 1, M, M + 1, INF):
                 for trig in ("start", "event"):
                     us.append(("loop", kind, M, L, trig))
-    if tier == "thorough":
-        for kind in ("pure", "choose", "enqueue"):
-            us.append(("loop", kind, 60, 55, "event"))
+    for kind in ("pure", "choose", "enqueue"):
+        us.append(("loop", kind, 60, 55, "event"))
     for M in Ms:
         for B in (M - 1, M + 1, 3 * M):
             for how in ("send_events", "sends", "during-suspended-action"):
